@@ -17,7 +17,7 @@ SIZES = {"BUFFER_SIZE", "POOL_SIZE"}
 WIDE = {"usize", "u64", "i64", "isize", "u128", "i128"}
 IDX_FNS = {"slot_index_from_slot_ref", "id_from_ref"}
 LEN_FNS = {"available_elements_count"}
-RANK = {"AbsW": 6, "DistW": 6, "O": 0, "K": 1, "N": 1, "Idx": 2, "Lap": 2, "DistB": 3, "Dist": 4, "Base": 5, "Abs": 6}
+RANK = {"AbsBits": 7, "AbsW": 6, "DistW": 6, "O": 0, "K": 1, "N": 1, "Idx": 2, "Lap": 2, "DistB": 3, "Dist": 4, "Base": 5, "Abs": 6}
 
 
 def join(a, b):
@@ -149,6 +149,10 @@ class Dims:
             a = self.kind(fk, e[2], depth + 1); b = self.kind(fk, e[3], depth + 1)
             a = "Abs" if a == "Abs?" else a; b = "Abs" if b == "Abs?" else b
             if isinstance(a, tuple) or isinstance(b, tuple): return "O"
+            if op in ("BitOr", "BitAnd", "BitXor", "Shl", "Shr") and ({"Abs", "Base", "AbsW", "AbsBits"} & {a, b}):
+                # `pos & (N-1)` is the power-of-two spelling of `pos % N`
+                if op == "BitAnd" and self._is_n_minus_1(fk, e[3] if a in ("Abs", "Base", "AbsW") else e[2]): return "Idx"
+                return "AbsBits"
             if "AbsW" in (a, b):
                 if op in ("Rem", "Div") and a == "AbsW" and b in ("N", "K"): return "Idx" if op == "Rem" else "Lap"
                 if op in ("Sub", "Add"): return "DistW"
@@ -176,6 +180,10 @@ class Dims:
                 return "O"
             return "O"
         return "O"
+
+    def _is_n_minus_1(self, fk, e):
+        e = strip_casts(e)
+        return e[0] == "bin" and e[1].rstrip("!~") == "Sub" and self.kind(fk, e[2]) == "N" and strip_casts(e[3]) == ("const", 1)
 
     def _ring_fn(self, fk):
         f = self.fx.by_key[fk][0]
